@@ -417,3 +417,12 @@ Definition recv_cc1 (r : list (pair * N)) (m : msg) : list (pair * N) :=
 Definition recv_cc (r : list (pair * N)) (ms : list msg) := fold_left recv_cc1 ms r.
 Definition cc_value (r : list (pair * N)) (p : pair) : N :=
   match get pair_eqb p r with Some v => v | None => 0 end.
+
+(* decidable well-formedness of one message (C05): status 0x8n/0x9n/0xBn/0xEn, two data bytes below 128 *)
+Definition wf_msgb (m : msg) : bool :=
+  match m with
+  | [st; d1; d2] =>
+      (mem N.eqb (N.land st 240) [128; 144; 176; 224]) && (128 <=? st) && (st <? 256) && (d1 <? 128) && (d2 <? 128)
+  | _ => false
+  end.
+
